@@ -415,6 +415,8 @@ type msgReader struct {
 	fin           bool
 	payloadLength int64
 	maskKey       uint32
+	// err is the error of the frame reader that ended the current message early.
+	err error
 
 	// util.ReaderFunc(mr.Read) to avoid continuous allocations.
 	readFunc util.ReaderFunc
@@ -422,6 +424,7 @@ type msgReader struct {
 
 func (mr *msgReader) reset(ctx context.Context, h header) {
 	mr.ctx = ctx
+	mr.err = nil
 	mr.flate = h.rsv1
 	mr.limitReader.reset(mr.readFunc)
 
@@ -441,6 +444,11 @@ func (mr *msgReader) setFrame(h header) {
 func (mr *msgReader) Read(p []byte) (n int, err error) {
 	err = mr.c.readMu.lock(mr.ctx)
 	if err != nil {
+		if mr.err != nil {
+			// The error that ended the message, e.g. a received close frame, may have been
+			// held back by the flate reader behind the bytes it had still to deliver.
+			err = mr.err
+		}
 		return 0, fmt.Errorf("failed to read: %w", err)
 	}
 	defer mr.c.readUnlock()
@@ -493,6 +501,7 @@ func (mr *msgReader) read(p []byte) (int, error) {
 
 			h, err := mr.c.readLoop(mr.ctx)
 			if err != nil {
+				mr.err = err
 				return 0, err
 			}
 			if h.opcode != opContinuation {
